@@ -32,6 +32,13 @@ def dumps(data, **kwargs):
 
     fmt = get_format(**kwargs)
 
+    if not isinstance(data, MeasureSet):
+        # list of MeasureSet, or plain list of measures
+        flat = MeasureSet()
+        for x in data:
+            flat.extend(x if isinstance(x, MeasureSet) else [x])
+        data = flat
+
     if fmt == "kvn":
         string = _dumps_kvn(data, **kwargs)
     elif fmt == "xml":
